@@ -159,13 +159,24 @@ def run(chk):
     msg_lines += ['ssl2bigrec %d' % n for n in (40, 255, 256, 16383, 16384, 16385, 21845, 32766, 32767)]
     from harness import c08
     msg_lines += [l for l in c08.gen_lines(rng, 'quick') if l.startswith('rrsigenc ')]    # built from datetimes in zones other than UTC
+    # cookies constructed from a name and a value in the cookie-octet alphabet of RFC 6265 4.1.1 ("=" included, anywhere)
+    for nv in ('sid abc', 'sid a=b', 'sid abc=', 'sid abc==', 'sid =abc', 'sid ==', 'a %s' % ''.join(rng.choice('abc=01') for _ in range(rng.randint(1, 6)))):
+        msg_lines.append('cookieenc %s %s' % tuple(x.encode('ascii').hex() for x in nv.split(' ')))
     nm = 0
+    cookie_seen = set()
     for l in msg_lines:
         o = impl.impl_line(l)
-        if o.startswith('LEAK RoundTripError') and nm < 3:
-            nm += 1
+        if o.startswith('LEAK RoundTripError'):
+            key = None
+            if l.startswith('cookieenc ') and bytes.fromhex(l.split(' ')[2]).startswith(b'='):
+                key = 'HttpHeaderFieldValueSetCookie/constructed-value-starts-with-equals'
+            if (key is None and nm >= 3) or key in cookie_seen:
+                continue
+            cookie_seen.add(key)
+            cookie_seen.discard(None)
+            nm += key is None
             chk.violation('a constructed message does not survive compose -> parse_exact_size: "%s" gives %s' % (l[:160], o[:80]),
-                          {'cmd': l, 'impl': o, 'predicate': 'constructed-message'}, None, True)
+                          {'cmd': l, 'impl': o, 'predicate': 'constructed-message'}, key, True)
     chk.coverage['constructed_messages'] = len(msg_lines)
     # constructed objects of every binary protocol class: each attrs field of an object parsed from a repository vector
     # replaced by other values of its type (attr.evolve: only what the constructor accepts), composed, parsed back, compared
